@@ -321,7 +321,8 @@ class ShareSet:
         if num_bytes not in (16, 32):
             raise ValueError("secret should be 128 bits or 256 bits")
         if k == 1:
-            return [(0, secret)]
+            # with a threshold of 1 every one of the n shares is the secret itself
+            return [(i, secret) for i in range(n)]
         else:
             random = bytes(randbits(8) for _ in range(num_bytes - 4))
             digest = cls.digest(random, secret)
